@@ -1015,6 +1015,8 @@ def check(run, repo):
 
 X_ = 'pmutt/io/excel.py'
 MUTANTS = [
+    {'name': 'wb3 A4: NASA arrays started as np.array([0] * 7) (an integer buffer)', 'expect': ('TYPE.int-buffer', 'set_nasa_a_low'),
+     'edits': [(X_, "        output_structure['a_low'] = np.zeros(7, )", "        output_structure['a_low'] = np.array([0] * 7)")]},
     {'name': 'row cells stored in the presets table', 'expect': ('REF.record', 'set_statmech_model'),
      'edits': [(X_, "        for key, val in presets[model].items():\n            if key not in output_structure:\n                output_structure[key] = val",
                     "        preset = presets[model]\n        preset.update(output_structure)\n        output_structure.update(preset)")]},
